@@ -29,13 +29,14 @@ const (
 	LTT    = "TT"    // two stacked lazy transposes (the second one has to move the data of the first)
 	LTF    = "TF"    // Slice() with no (or only full-range) arguments of a lazily transposed tensor: a view of all of it
 	LCSS   = "CSS"   // Clone() of a stepped slice: owns its storage but keeps the view's strides and storage window
+	LSSR   = "SSR"   // one entry cut (by a range) out of a slice that steps over a leading axis: default strides, but the storage window runs on past the next selected entry
 	LSSS   = "SSS"   // unit-step slice of a stepped slice: its storage window is longer than its elements need (ends at the next selected element)
 )
 
 // ColViewLayouts are the views over column-major storage (C16).
 var ColViewLayouts = []string{LFT, LFS, LFSS}
 
-var AllLayouts = []string{LC, LF, LFconv, LT, LS, LSS, LMT, LMS, LMSS, LST, LTS, LCSS, LTT, LTF}
+var AllLayouts = []string{LC, LF, LFconv, LT, LS, LSS, LMT, LMS, LMSS, LST, LTS, LCSS, LTT, LTF, LSSR}
 
 // RowLayouts are the C06 operand layouts {contiguous, lazily transposed, sliced, step-sliced, materialised} and what
 // programs compose from them: a slice of a transpose, a transpose of a slice, the clone of a stepped slice (which owns its
@@ -43,7 +44,7 @@ var AllLayouts = []string{LC, LF, LFconv, LT, LS, LSS, LMT, LMS, LMSS, LST, LTS,
 var RowLayouts = []string{LC, LT, LS, LSS, LMS, LST, LTS, LCSS, LTT, LTF}
 
 // ElemLayouts are the operand layouts of the elementwise matrices: RowLayouts plus the slice of a stepped slice.
-var ElemLayouts = []string{LC, LT, LS, LSS, LMS, LSSS, LST, LTS, LCSS, LTT, LTF}
+var ElemLayouts = []string{LC, LT, LS, LSS, LMS, LSSS, LST, LTS, LCSS, LTT, LTF, LSSR}
 
 // Operand is a tensor built from a model array in a given layout, together
 // with everything the monitors need to observe raw memory.
@@ -499,6 +500,45 @@ func (op *Operand) build(m *model.ND, layout string, rng *rand.Rand) error {
 		if reflect.ValueOf(op.Backing).Kind() != reflect.Slice {
 			return degrade()
 		}
+	case LSSR:
+		// m is the second selected row of parent(4, m.Shape...)[0:4:2]: parent rows 0 and 2 are selected, the view is row 2, cut
+		// with the range [1:2] (the library drops the axis of a one-entry range); its strides are the default ones, its storage
+		// window reaches to the end of the parent
+		if rank < 1 || len(m.V) < 2 {
+			return degrade()
+		}
+		pshape := append([]int{4}, m.Shape...)
+		rowLen := len(m.V)
+		pv := make([]interface{}, 0, 4*rowLen)
+		for r := 0; r < 4; r++ {
+			for k := 0; k < rowLen; k++ {
+				if r == 2 {
+					pv = append(pv, m.V[k])
+				} else {
+					pv = append(pv, Canary(t, 1, int64(100+r*rowLen+k))[0])
+				}
+			}
+		}
+		parent, b := op.newC(t, pshape, pv)
+		v5, err := parent.Slice(rs{0, 4, 2})
+		if err != nil {
+			return err
+		}
+		v6, err := v5.Slice(rs{1, 2, 1})
+		if err != nil {
+			return err
+		}
+		vd, ok := v6.(*tensor.Dense)
+		if !ok || !ShapeEq([]int(vd.Shape()), m.Shape) {
+			return degrade()
+		}
+		op.D, op.Root, op.Backing = vd, parent, b
+		op.Off = make([]int, rowLen)
+		for k := range op.Off {
+			op.Off[k] = 2*rowLen + k
+		}
+		op.keep = append(op.keep, parent, v5.(*tensor.Dense))
+		op.Recipe["of"] = "p(4,shape...)[0:4:2][1:2]"
 	case LSSS:
 		// m extended by one more entry along its last axis is built as a stepped slice; m is then cut out of it
 		if rank < 1 || len(m.V) < 1 {
